@@ -49,7 +49,8 @@ pub struct PropDef {
     /// (verif_seed, run index, tier) -> record
     pub generate: fn(u64, u64, Tier) -> Record,
     pub check: fn(&Record, &mut Counters) -> Verdict,
-    pub candidates: fn(&Record) -> Vec<Record>,
+    /// (record, coarse_only) -> simplification candidates
+    pub candidates: fn(&Record, bool) -> Vec<Record>,
     pub runs_quick: u64,
     pub runs_thorough: u64,
     pub level: &'static str,
@@ -183,12 +184,17 @@ pub fn check_record(def: &PropDef, rec: &Record) -> Verdict {
 }
 
 fn shrink_record(def: &PropDef, rec: Record, clause: &str, max_execs: usize) -> (Record, usize) {
+    // bounded by executions *and* by wall clock (large scenarios are slow to re-execute); whatever
+    // comes out is re-confirmed in a fresh process, so stopping early only costs minimality
+    let t0 = Instant::now();
+    let budget = Duration::from_secs(std::env::var("VERIF_SHRINK_SECS").ok().and_then(|s| s.parse().ok()).unwrap_or(40));
     let mut cur = rec;
     let mut execs = 0;
+    let mut coarse = true;
     loop {
         let mut progressed = false;
-        for cand in (def.candidates)(&cur) {
-            if execs >= max_execs {
+        for cand in (def.candidates)(&cur, coarse) {
+            if execs >= max_execs || t0.elapsed() > budget {
                 return (cur, execs);
             }
             execs += 1;
@@ -200,7 +206,11 @@ fn shrink_record(def: &PropDef, rec: Record, clause: &str, max_execs: usize) -> 
             }
         }
         if !progressed {
-            return (cur, execs);
+            if coarse {
+                coarse = false; // structural removals exhausted: now simplify expressions and scripts
+            } else {
+                return (cur, execs);
+            }
         }
     }
 }
@@ -430,10 +440,11 @@ pub fn check_main(def: &PropDef, tier: Tier) -> i32 {
             known_hit.entry(key.clone()).or_insert_with(|| text.clone());
             continue;
         }
-        if seen_clauses.contains(&key) || reported >= 3 {
+        // one report per oracle clause (the lowest run index that fails it), at most three clauses
+        if seen_clauses.contains(&viol.clause) || reported >= 3 {
             continue;
         }
-        seen_clauses.push(key.clone());
+        seen_clauses.push(viol.clause.clone());
         std::fs::create_dir_all(&replay_dir).ok();
         let base = replay_dir.join(format!("{verif_seed}-{idx}"));
         let full = ReplayFile {
